@@ -3,6 +3,9 @@ import IoraModel.Lemmas.XmlEntities
 import IoraModel.Lemmas.XmlDom
 import IoraModel.Lemmas.XmlRender
 import IoraModel.Lemmas.XmlTransfer
+import IoraModel.Lemmas.XmlDecodeReads
+import IoraModel.Lemmas.XmlDtor
+import IoraModel.Lemmas.XmlThrow
 /-!
 # C14 — The XML parser accepts only balanced documents and reports them faithfully
 
@@ -119,6 +122,18 @@ theorem X2_no_oob_read (o : Options) (bs : Bytes) :
   rw [h] at this
   exact this
 
+/-- **X2 (no out-of-range read inside `decodeEntities` / `appendCharRef`).** The decoder written read by read — `in[i]`, `ent[0]`,
+`entBody[1]`, `entBody[i]` as partial indexed reads (`oob` for an index `≥ size`) under exactly the guards the C++ has
+(`Gen.Xml.decodeReadSites`, regenerated from the header and tied to the model's table by `gen_conformance`) — equals the decoder the
+X5 theorems are about, on every input: no read is out of range and no loop budget is exhausted. -/
+theorem X2_decode_reads (inp : Bytes) :
+    decodeEntitiesI inp = .ok (decodeEntities inp) ∧ (∀ ent, appendCharRefI ent = .ok (appendCharRef ent)) :=
+  ⟨decodeEntitiesI_eq inp, appendCharRefI_eq⟩
+
+/-- not vacuous: the read primitive does answer out-of-range — with the size test of `appendCharRef` removed (`ent[1]?` on `#`) the
+read is `none` -/
+example : ([0x23] : Bytes)[1]? = none ∧ decodeEntitiesI [0x26, 0x23, 0x3B] = .ok (.err .badCharRef 0) := by decide
+
 /-- the outcome is not vacuous: at the end of the input the read primitives do answer "out of range" (`advance()` on an exhausted
 cursor is `bad oob`, `peek()` and `_input[_cur + 0]` are `none`) — it is the guards that keep `next` away from them -/
 example : (match advR 1 ⟨1, 1, 2, []⟩ with | .bad .oob => true | _ => false) = true ∧
@@ -138,6 +153,29 @@ theorem X3_token_count (o : Options) (bs : Bytes) :
     (tokens o bs).1.length ≤ bs.length ∧ (tokens o bs).2 ≠ .bad .fuel := by
   have hok := tokens_ok' o bs
   exact ⟨by have := hok.count; simpa [St.init, Cur.init] using this, hok.notBad _⟩
+
+/-- **X3 (the public `next()` with its latches `_hasError` / `_emittedEof`).** Calling `Parser::next()` `length + 2` times — and ANY
+number of times more — returns true exactly for the tokens of the run, in order; afterwards the object holds the recorded error
+(tokenizer state untouched by the failing call) or the Eof latch, and every further call returns false and changes nothing. -/
+theorem X3_public_next (o : Options) (bs : Bytes) (extra : Nat) :
+    (match (tokens o bs).2 with
+     | .accepted _ s' => pcalls o (bs.length + 2 + extra) ⟨St.init bs, none, false⟩ = ((tokens o bs).1, ⟨s', none, true⟩)
+     | .error e c s' => pcalls o (bs.length + 2 + extra) ⟨St.init bs, none, false⟩ = ((tokens o bs).1, ⟨s', some (e, c), false⟩)
+     | .bad _ => False) ∧
+    ∀ p : PSt, (p.error.isSome = true ∨ p.emittedEof = true) → pnext o p = (none, p) := by
+  refine ⟨?_, pnext_latched o⟩
+  have h := pcalls_run o (bs.length + 2) (St.init bs) extra
+  have hnb := (tokens_ok' o bs).notBad
+  unfold tokens at hnb ⊢
+  cases hout : (run o (bs.length + 2) (St.init bs)).2 with
+  | accepted t s' => rw [hout] at h; exact h
+  | error e c s' => rw [hout] at h; exact h
+  | bad b => exact (hnb b hout).elim
+
+/-- non-vacuity: on `<a></b>` three more calls than needed still give the one token and the recorded mismatch -/
+example : (pcalls {} (docMismatch.length + 2 + 3) ⟨St.init docMismatch, none, false⟩).1.map (·.kind) = [.startElement] ∧
+    ((pcalls {} (docMismatch.length + 2 + 3) ⟨St.init docMismatch, none, false⟩).2.error.map (·.1)) = some .mismatch := by
+  decide +kernel
 
 /-- **X4 (limits).** For all option values, every token that is produced — accepted document or not — respects every limit:
 element depth ≤ `maxDepth`, attributes per element ≤ `maxAttrsPerElement`, element/attribute/PI names ≤ `maxNameLength`,
@@ -363,6 +401,297 @@ example : ((tokens {} [0x3C, 0x61, 0x3E, 0x20, 0x20, 0x78, 0x20, 0x79, 0x20, 0x3
 example : (match domBuild {} docAXA with | .doc [.elem _ [] [.text _]] => true | _ => false) = true ∧
     (match domBuild {} docAttr with | .doc [.elem _ [_] []] => true | _ => false) = true := by decide +kernel
 
+/-! ### X7 beyond the skeleton: content tokens, documents with every node kind, the DOM that is built -/
+
+/-- **"first occurrence" means first.** `findSub pat r = some k` says exactly: `pat` is a prefix of `r` from index `k` on, and of `r`
+from no smaller index on (`startsWith` is the prefix relation, `startsWith_iff`); and the first such index is what `findSub` returns.
+This is the search `readUntil` (comments, CDATA) and `_input.find("?>", _cur)` (PIs) perform. -/
+theorem X7_first_occurrence (pat r : Bytes) (k : Nat) (hk : k < r.length) :
+    findSub pat r = some k ↔
+      ((∃ t, r.drop k = pat ++ t) ∧ ∀ j, j < k → ¬ ∃ t, r.drop j = pat ++ t) := by
+  constructor
+  · intro h
+    obtain ⟨h1, h2⟩ := findSub_first pat r k h
+    refine ⟨(startsWith_iff _ _).1 h1, ?_⟩
+    intro j hj hex
+    have := h2 j hj
+    rw [(startsWith_iff _ _).2 hex] at this
+    cases this
+  · rintro ⟨h1, h2⟩
+    apply findSub_of_first pat r k hk ((startsWith_iff _ _).2 h1)
+    intro j hj
+    cases hs : startsWith pat (r.drop j) with
+    | false => rfl
+    | true => exact (h2 j hj ((startsWith_iff _ _).1 hs)).elim
+
+/-- **Comment token, exactly.** In any state consistent with the input, when the unread input is white space, `<!--` and then `r`:
+if `-->` occurs in `r`, `next()` returns a Comment token whose text is the slice of `r` up to the FIRST `-->` (offset and length
+stated), the cursor stands right after that `-->`, depth/stack are untouched and one token is counted; if `-->` does not occur the
+call fails with "unterminated comment". -/
+theorem next_comment_exact (bs : Bytes) (o : Options) (s : St) (lead r : Bytes) (hi : SkInv bs o s) (hlead : AllSpace lead)
+    (hrest : s.cur.rest = lead ++ 0x3C :: 0x21 :: 0x2D :: 0x2D :: r) (hbud : o.maxTokens = 0 ∨ s.produced < o.maxTokens) :
+    match findSub [0x2D, 0x2D, 0x3E] r with
+    | some k => ∃ t s', next o s = .tok t s' ∧
+        ContentStep bs o s t s' .comment (s.cur.pos + lead.length) (s.cur.pos + lead.length + 4) (r.take k) (r.drop (k + 3)) ∧
+        t.name = ⟨0, 0⟩
+    | none => ∃ c, next o s = .err .unterminatedComment c := by
+  rw [next_eq]; exact next_comment bs o s lead r hi hlead hrest hbud
+
+/-- **CDATA token, exactly**: the slice up to the FIRST `]]>` after `<![CDATA[`. -/
+theorem next_cdata_exact (bs : Bytes) (o : Options) (s : St) (lead r : Bytes) (hi : SkInv bs o s) (hlead : AllSpace lead)
+    (hrest : s.cur.rest = lead ++ 0x3C :: 0x21 :: 0x5B :: 0x43 :: 0x44 :: 0x41 :: 0x54 :: 0x41 :: 0x5B :: r)
+    (hbud : o.maxTokens = 0 ∨ s.produced < o.maxTokens) :
+    match findSub [0x5D, 0x5D, 0x3E] r with
+    | some k => ∃ t s', next o s = .tok t s' ∧
+        ContentStep bs o s t s' .cdata (s.cur.pos + lead.length) (s.cur.pos + lead.length + 9) (r.take k) (r.drop (k + 3)) ∧
+        t.name = ⟨0, 0⟩
+    | none => ∃ c, next o s = .err .unterminatedCData c := by
+  rw [next_eq]; exact next_cdata bs o s lead r hi hlead hrest hbud
+
+/-- **PI token, exactly**: name = the target, text = everything after the target up to the FIRST `?>` (separator white space
+included). -/
+theorem next_pi_exact (bs : Bytes) (o : Options) (s : St) (lead target d : Bytes) (hi : SkInv bs o s) (hlead : AllSpace lead)
+    (hn : ValidName target) (hnl : target.length ≤ o.maxName) (hd : StartsNon isNameChar d)
+    (hrest : s.cur.rest = lead ++ 0x3C :: 0x3F :: (target ++ d)) (hbud : o.maxTokens = 0 ∨ s.produced < o.maxTokens) :
+    match findSub [0x3F, 0x3E] d with
+    | some k => ∃ t s', next o s = .tok t s' ∧
+        ContentStep bs o s t s' .pi (s.cur.pos + lead.length) (s.cur.pos + lead.length + 2 + target.length) (d.take k)
+          (d.drop (k + 2)) ∧ t.name = ⟨s.cur.pos + lead.length + 2, target.length⟩ ∧ t.name.bytes bs = target
+    | none => ∃ c, next o s = .err .unterminatedPi c := by
+  rw [next_eq]; exact next_pi bs o s lead target d hi hlead hn hnl hd hrest hbud
+
+/-- **DOCTYPE token, exactly**: the keyword in any letter case followed by a boundary byte (white space — CR included —, `>` or `[`);
+text = the slice up to the first `>` outside `[...]` (`doctypeScan`). -/
+theorem next_doctype_exact (bs : Bytes) (o : Options) (s : St) (lead kw d' : Bytes) (x : UInt8) (hi : SkInv bs o s)
+    (hlead : AllSpace lead) (hkw : startsWithCI doctypeWord kw = true) (hkwl : kw.length = 7)
+    (hx : (isSpace x || x = 0x3E || x = 0x5B) = true)
+    (hrest : s.cur.rest = lead ++ 0x3C :: 0x21 :: (kw ++ x :: d')) (hbud : o.maxTokens = 0 ∨ s.produced < o.maxTokens) :
+    match doctypeScan (x :: d') 0 with
+    | some k => ∃ t s', next o s = .tok t s' ∧
+        ContentStep bs o s t s' .doctype (s.cur.pos + lead.length) (s.cur.pos + lead.length + 9) ((x :: d').take k)
+          ((x :: d').drop (k + 1)) ∧ t.name = ⟨0, 0⟩
+    | none => ∃ c, next o s = .err .unterminatedDoctype c := by
+  rw [next_eq]; exact next_doctype bs o s lead kw d' x hi hlead hkw hkwl hx hrest hbud
+
+/-- **Text token, exactly**: a run `raw` without `<` that contains a byte that is not white space, within `maxTextSpan`, followed by
+`<` or the end of the input, is ONE Text token with exactly the bytes `raw` — leading and trailing white space included. -/
+theorem next_text_exact (bs : Bytes) (o : Options) (s : St) (raw after : Bytes) (hi : SkInv bs o s)
+    (hraw : ∀ x ∈ raw, x ≠ 0x3C) (hns : ∃ x ∈ raw, isSpace x = false) (hafter : StartsNon notLt after)
+    (hrest : s.cur.rest = raw ++ after) (hbud : o.maxTokens = 0 ∨ s.produced < o.maxTokens) (hlen : raw.length ≤ o.maxText) :
+    ∃ t s', next o s = .tok t s' ∧ ContentStep bs o s t s' .text s.cur.pos s.cur.pos raw after ∧ t.name = ⟨0, 0⟩ := by
+  rw [next_eq]; exact next_text bs o s raw after hi hraw hns hafter hrest hbud hlen
+
+/-- non-vacuity, and the FIRST occurrence made visible: in `<a><!--x-->--></a>` the comment is `x` (slice 7+1), and the second
+`-->` is reported as text; in `<a><![CDATA[]]]]>]]></a>` the section is `]]` (slice 12+2, ended by the first `]]>`), then the text `]]>`. -/
+example : ((tokens {} [0x3C, 0x61, 0x3E, 0x3C, 0x21, 0x2D, 0x2D, 0x78, 0x2D, 0x2D, 0x3E, 0x2D, 0x2D, 0x3E, 0x3C, 0x2F, 0x61, 0x3E]).1.map
+    fun t => (t.kind, t.text)) = [(.startElement, ⟨0, 0⟩), (.comment, ⟨7, 1⟩), (.text, ⟨11, 3⟩), (.endElement, ⟨0, 0⟩)] := by
+  decide +kernel
+example : ((tokens {} [0x3C, 0x61, 0x3E, 0x3C, 0x21, 0x5B, 0x43, 0x44, 0x41, 0x54, 0x41, 0x5B, 0x5D, 0x5D, 0x5D, 0x5D, 0x3E, 0x5D, 0x5D,
+    0x3E, 0x3C, 0x2F, 0x61, 0x3E]).1.map fun t => (t.kind, t.text)) =
+    [(.startElement, ⟨0, 0⟩), (.cdata, ⟨12, 2⟩), (.text, ⟨17, 3⟩), (.endElement, ⟨0, 0⟩)] := by
+  decide +kernel
+
+/-- **X7 in full (faithfulness for every node kind).** Take ANY sequence of constructs — tags with any formatting (as in
+`X7_skeleton_faithful`), text runs, CDATA sections, comments, processing instructions, DOCTYPE declarations — each within the
+supported subset (`CItem.WF`: text without `<` containing a byte that is not white space; CDATA / comment / PI bodies that do not
+contain their terminator; a readable PI target; DOCTYPE in any letter case with a `>`-free or bracketed body), formatting white
+space before every construct except text, every text run followed directly by markup or the end (`TextOk`), trailing white space.
+If the tag structure is well nested (`specRunC`, which never looks at the parser, yields the events `vs` and leaves nothing open)
+then the pull API accepts the rendered document and reports exactly `vs`: every element, attribute, text run, CDATA section,
+comment, PI (target and data) and DOCTYPE body, byte for byte, in document order, at its depth.  The formatting white space
+(`lead`, `trail`) produces NO event: white-space-only character data between markup is not reported by this parser — such text
+nodes are outside the supported subset (see the level note); every other text node is reported whole. -/
+theorem X7_content_faithful (o : Options) (ps : List CPiece) (trail : Bytes) (vs : List CView)
+    (hwf : ∀ p ∈ ps, p.WF o) (htext : TextOk ps trail) (htrail : AllSpace trail)
+    (hbud : o.maxTokens = 0 ∨ ps.length < o.maxTokens) (hspec : specRunC o [] ps = some (vs, [])) :
+    (tokens o (renderC ps ++ trail)).1.map (Token.cview (renderC ps ++ trail)) = vs ∧
+    ∃ t s, (tokens o (renderC ps ++ trail)).2 = .accepted t s :=
+  content_faithful' o ps trail vs hwf htext htrail hbud hspec
+
+/-- **X7 for document trees with every node kind.** Every forest of trees `es` — elements with attributes and children, text,
+CDATA, comments, PIs, DOCTYPE, each formatted freely within the supported subset — of height within `maxDepth` is accepted, and the
+pull API reports exactly its pre-order events `ceventsList 1 es`. -/
+theorem X7_document_faithful (o : Options) (es : List CElem) (trail : Bytes) (hwf : CWFList o es)
+    (htext : TextOk (cpiecesList es) trail) (htrail : AllSpace trail)
+    (hh : cheightList es ≤ o.maxDepth) (hbud : o.maxTokens = 0 ∨ (cpiecesList es).length < o.maxTokens) :
+    (tokens o (renderDoc es trail)).1.map (Token.cview (renderDoc es trail)) = ceventsList 1 es ∧
+    ∃ t s, (tokens o (renderDoc es trail)).2 = .accepted t s :=
+  doc_faithful' o es trail hwf htext htrail hh hbud
+
+/-- **The boundary of the supported subset, stated as a theorem (review F3).** Character data that consists of white space only is
+NOT reported: for every white-space run `w`, every readable name and all option values that allow one element, the pull API reports
+`<n>w</n>` exactly as it reports `<n></n>` — a start tag and an end tag, no Text token — and accepts it.  (A text run that contains
+any other byte is reported whole, white space included: `next_text_exact`; a text whose DECODED value is white space only, such as
+`&#32;`, is a Text token and a DOM Text node.)  For mixed content this means that the space in `<b>x</b> <i>y</i>` is lost
+(candidate finding FC14b: see `X7_all_text_statement` / `_refuted` / `_partial` below).  Reporting white space inside elements would
+add Text tokens and DOM nodes to every pretty-printed document; it is the documented behaviour of `skipWhitespaceOutsideText`
+("only skip if the next thing is markup or the end of input") and is treated here as the boundary of the supported subset. -/
+theorem X7_space_only_text_not_reported (o : Options) (n w : Bytes) (hn : ValidName n) (hnl : n.length ≤ o.maxName)
+    (hw : AllSpace w) (hd : 1 ≤ o.maxDepth) (hbud : o.maxTokens = 0 ∨ 2 < o.maxTokens) :
+    (tokens o (0x3C :: (n ++ 0x3E :: (w ++ 0x3C :: 0x2F :: (n ++ [0x3E]))))).1.map
+        (Token.cview (0x3C :: (n ++ 0x3E :: (w ++ 0x3C :: 0x2F :: (n ++ [0x3E]))))) =
+      [⟨.startElement, n, [], [], 1⟩, ⟨.endElement, n, [], [], 1⟩] ∧
+    ∃ t s, (tokens o (0x3C :: (n ++ 0x3E :: (w ++ 0x3C :: 0x2F :: (n ++ [0x3E]))))).2 = .accepted t s := by
+  have sp0 : AllSpace [] := by intro x hx; simp at hx
+  have h := content_faithful' o [⟨[], .tag (.start n [] [])⟩, ⟨w, .tag (.close n [])⟩] []
+    [⟨.startElement, n, [], [], 1⟩, ⟨.endElement, n, [], [], 1⟩]
+    (by
+      intro p hp
+      simp only [List.mem_cons, List.mem_nil_iff, or_false] at hp
+      rcases hp with rfl | rfl
+      · exact ⟨sp0, hn, hnl, by simp, by simp, sp0⟩
+      · exact ⟨hw, hn, hnl, sp0⟩)
+    (by simp [TextOk, CItem.isText]) sp0 (by simpa using hbud)
+    (by simp [specRunC, hd])
+  have hr : renderC [⟨[], .tag (.start n [] [])⟩, ⟨w, .tag (.close n [])⟩] ++ [] =
+      0x3C :: (n ++ 0x3E :: (w ++ 0x3C :: 0x2F :: (n ++ [0x3E]))) := by
+    simp [renderC, CItem.render, Item.render, renderAttrs]
+  rw [hr] at h
+  exact h
+
+/-- `<a>raw</a>` -/
+def docAText (raw : Bytes) : Bytes := 0x3C :: 0x61 :: 0x3E :: (raw ++ [0x3C, 0x2F, 0x61, 0x3E])
+
+/-- the text clause of X7 WITHOUT the restriction of the supported subset: every non-empty run of character data without `<` —
+white-space-only runs included, as XML 1.0 §2.10 asks of a processor — is reported as a Text token with exactly its bytes -/
+def X7_all_text_statement : Prop :=
+  ∀ raw : Bytes, raw ≠ [] → (∀ x ∈ raw, x ≠ 0x3C) → raw.length ≤ ({} : Options).maxText →
+    (tokens {} (docAText raw)).1.map (Token.cview (docAText raw)) =
+      [⟨.startElement, [0x61], [], [], 1⟩, ⟨.text, [], raw, [], 1⟩, ⟨.endElement, [0x61], [], [], 1⟩]
+
+/-- refuted by `<a> </a>`: no Text token (candidate finding FC14b; the check treats it as the boundary of the supported subset) -/
+theorem X7_all_text_refuted : ¬ X7_all_text_statement := by
+  intro h
+  have := h [0x20] (by simp) (by decide) (by decide)
+  revert this
+  decide +kernel
+
+/-- the strongest true form: the same statement for every run that contains a byte that is not white space -/
+theorem X7_all_text_partial (raw : Bytes) (hraw : ∀ x ∈ raw, x ≠ 0x3C) (hns : ∃ x ∈ raw, isSpace x = false)
+    (hlen : raw.length ≤ ({} : Options).maxText) :
+    (tokens {} (docAText raw)).1.map (Token.cview (docAText raw)) =
+      [⟨.startElement, [0x61], [], [], 1⟩, ⟨.text, [], raw, [], 1⟩, ⟨.endElement, [0x61], [], [], 1⟩] := by
+  have sp0 : AllSpace [] := by intro x hx; simp at hx
+  have vn : ValidName [0x61] := ⟨0x61, [], rfl, by decide, by simp⟩
+  have h := content_faithful' {} [⟨[], .tag (.start [0x61] [] [])⟩, ⟨[], .text raw⟩, ⟨[], .tag (.close [0x61] [])⟩] []
+    [⟨.startElement, [0x61], [], [], 1⟩, ⟨.text, [], raw, [], 1⟩, ⟨.endElement, [0x61], [], [], 1⟩]
+    (by
+      intro p hp
+      simp only [List.mem_cons, List.mem_nil_iff, or_false] at hp
+      rcases hp with rfl | rfl | rfl
+      · exact ⟨sp0, vn, by decide, by simp, by simp, sp0⟩
+      · exact ⟨sp0, hraw, hns, hlen⟩
+      · exact ⟨sp0, vn, by decide, sp0⟩)
+    (by
+      simp only [TextOk, CItem.isText, Bool.false_eq_true, false_implies, true_and, and_true, forall_const]
+      intro x r hx
+      simp [renderC, CItem.render, Item.render] at hx
+      rw [← hx.1]; decide)
+    sp0 (Or.inl rfl) (by simp [specRunC]; decide)
+  have hr : renderC [⟨[], .tag (.start [0x61] [] [])⟩, ⟨[], .text raw⟩, ⟨[], .tag (.close [0x61] [])⟩] ++ [] = docAText raw := by
+    simp [renderC, CItem.render, Item.render, renderAttrs, docAText]
+  rw [hr] at h
+  exact h.1
+
+/-- **X7 (the DOM is built, and is the document).** For ARBITRARY bytes: if the document is accepted and every attribute value and
+every text run decodes (`evsOf … = some es`: the token list read as document-order events with values decoded), then
+`DomBuilder::build` returns a document — it has no other way to fail — and walking it in document order gives exactly `es`. -/
+theorem X7_dom_built (o : Options) (bs : Bytes) (t : Token) (s : St) (es : List Ev) (hacc : (tokens o bs).2 = .accepted t s)
+    (hdec : evsOf bs (tokens o bs).1 = some es) : ∃ ch, domBuild o bs = .doc ch ∧ flattenList ch = es :=
+  dom_built o bs t s es hacc hdec
+
+/-- **X7 ∘ X6 for document trees.** For a rendered forest with every node kind (hypotheses of `X7_document_faithful`): if the
+forest's own events decode (`cviewsEvs (ceventsList 1 es) = some evs` — attribute values and text runs entity-decoded, DOCTYPE
+dropped, a text that decodes to nothing dropped; a definition that looks neither at the parser nor at the builder) then the DOM IS
+built and, walked in document order, is exactly `evs`. -/
+theorem X7_dom_of_document (o : Options) (es : List CElem) (trail : Bytes) (evs : List Ev) (hwf : CWFList o es)
+    (htext : TextOk (cpiecesList es) trail) (htrail : AllSpace trail)
+    (hh : cheightList es ≤ o.maxDepth) (hbud : o.maxTokens = 0 ∨ (cpiecesList es).length < o.maxTokens)
+    (hdec : cviewsEvs (ceventsList 1 es) = some evs) :
+    ∃ ch, domBuild o (renderDoc es trail) = .doc ch ∧ flattenList ch = evs := by
+  obtain ⟨h1, t, s, h2⟩ := doc_faithful' o es trail hwf htext htrail hh hbud
+  apply dom_built o _ t s evs h2
+  rw [evsOf_cviews, h1]
+  exact hdec
+
+/-- non-vacuity of the full X7: the document `<!DOCTYPE a><a> x<!--c--><![CDATA[d]]><?p q?></a>` + newline as a tree -/
+def exDoc : List CElem :=
+  [.doctype [] doctypeWord [0x20, 0x61],
+   .node [] [0x61] [] [] [.text [0x20, 0x78], .comment [] [0x63], .cdata [] [0x64], .pi [] [0x70] [0x20, 0x71]] [] []]
+example : CWFList {} exDoc ∧ TextOk (cpiecesList exDoc) [0x0A] ∧ AllSpace [0x0A] ∧ cheightList exDoc = 1 ∧
+    ceventsList 1 exDoc = [⟨.doctype, [], [0x20, 0x61], [], 0⟩, ⟨.startElement, [0x61], [], [], 1⟩, ⟨.text, [], [0x20, 0x78], [], 1⟩,
+      ⟨.comment, [], [0x63], [], 1⟩, ⟨.cdata, [], [0x64], [], 1⟩, ⟨.pi, [0x70], [0x20, 0x71], [], 1⟩, ⟨.endElement, [0x61], [], [], 1⟩] ∧
+    cviewsEvs (ceventsList 1 exDoc) = some [.open_ [0x61] [], .text [0x20, 0x78], .comment [0x63], .cdata [0x64],
+      .pi [0x70] [0x20, 0x71], .close] := by
+  have vn : ∀ b : UInt8, isNameStart b = true → ValidName [b] := fun b h => ⟨b, [], rfl, h, by simp⟩
+  have sp0 : AllSpace [] := by intro x hx; simp at hx
+  have nl : AllSpace [0x0A] := by intro x hx; simp at hx; subst hx; decide
+  refine ⟨?_, ?_, nl, by decide, by decide, by decide +kernel⟩
+  · refine ⟨⟨sp0, by decide, by decide, by decide, ?_⟩, ⟨sp0, vn _ (by decide), by decide, by simp, by decide, sp0, ?_, sp0, sp0⟩, trivial⟩
+    · intro x r h; cases h; decide
+    · refine ⟨⟨?_, ⟨0x78, by simp, by decide⟩, by decide⟩, ⟨sp0, by simp only [CItem.WF]; decide⟩, ⟨sp0, by simp only [CItem.WF]; decide⟩, ⟨sp0, vn _ (by decide), by decide, ?_, by decide⟩, trivial⟩
+      · intro x hx; simp at hx; rcases hx with rfl | rfl <;> decide
+      · intro x r h; cases h; decide
+  · simp only [exDoc, cpiecesList, CElem.pieces, List.cons_append, List.nil_append, List.append_nil, TextOk, CItem.isText,
+      Bool.false_eq_true, false_implies, true_and, and_true, forall_const]
+    intro x r h
+    simp [renderC, CItem.render, commentEnd] at h
+    rw [← h.1]; decide
+
+/-- **`Node::~Node` as repaired (FC14a).** Destroying a node runs the work-list loop over its subtree: the loop lets go of every node of
+the subtree EXACTLY ONCE (the dropped nodes are a permutation of the pre-order listing of all descendants — nothing leaked, nothing
+freed twice), in exactly as many iterations as there are descendants, and every node is childless at the moment it is dropped, so
+its implicit member destruction never recurses — whatever the nesting depth.  (The loop mirrored is the regenerated
+`Gen.Xml.nodeDtorBody`; the implicit destructor this replaced recursed once per nesting level.) -/
+theorem X8_destructor_visits_once (n : Node) :
+    ((n.destroy).map (·.node)).Perm (n.labels) ∧ n.destroy.length = n.size ∧
+    ∀ d ∈ n.destroy, d.kidsLeft = 0 ∧ d.node.kids = [] := by
+  have hp := destroyLoop_perm (sizeList n.kids) n.kids (Nat.le_refl _)
+  have hperm : ((n.destroy).map (·.node)).Perm (n.labels) := by
+    rw [Node.labels_eq]
+    simp only [Node.destroy, List.map_append, List.map_cons, List.map_nil]
+    exact (List.perm_append_comm).trans (List.Perm.cons _ hp)
+  refine ⟨hperm, ?_, ?_⟩
+  · have := hperm.length_eq
+    simp only [List.length_map] at this
+    rw [this]
+    have h2 := (mutual_len [n]).2 n (by simp)
+    exact h2
+  · intro d hd
+    simp only [Node.destroy, List.mem_append, List.mem_cons, List.mem_nil_iff, or_false] at hd
+    rcases hd with hd | rfl
+    · exact destroyLoop_childless _ _ d hd
+    · exact ⟨rfl, by cases n <;> rfl⟩
+
+/-- non-vacuity: the DOM of `<a><b><c/></b>x</a>` is destroyed in 4 drops (3 loop iterations, then the node itself), each of a childless node -/
+example : ((Node.elem [0x61] [] [.elem [0x62] [] [.elem [0x63] [] []], .text [0x78]]).destroy.map fun d => d.node.size) = [1, 1, 1, 1] := by
+  decide
+
+/-- **The two builds (`IORA_XML_THROW_ON_ERROR` = 0 and 1).** Every theorem above quantifies over `Options` including `throwing`, so
+each holds for both builds.  This one relates them: for arbitrary bytes and option values, one call of `next()` gives the same token
+and state in both builds, and a whole document gives exactly the same token list and ends the same way — the exception of the throwing
+build carries the error the default build records, at the same cursor — with ONE exception: where the default build reports
+"invalid start tag / end tag / attribute name / PI target" for a name longer than `maxNameLength`, the throwing build reports
+"name too long" (`readName`'s own `fail()` ends the call before the caller can substitute its message).  SAX delivers the same events; `DomBuilder::build` returns the same value, or lets
+the exception out where the default build returns `nullptr` with the tokenizer's error. -/
+theorem X9_throwing_build (o : Options) (bs : Bytes) :
+    (∀ s : St, SRel (next o s) (next o.thr s)) ∧
+    (tokens o.thr bs).1 = (tokens o bs).1 ∧ ORel (tokens o bs).2 (tokens o.thr bs).2 ∧
+    -- SAX: the same callbacks with the same tokens, for every subset of registered members
+    (∀ reg, (runSax reg o.thr bs).1 = (runSax reg o bs).1) ∧
+    -- DOM: a returned value is the default build's value; an exception stands for the default build's `nullptr` + tokenizer error
+    (match domBuildT o bs with
+     | .ret r => domBuild o bs = r
+     | .thrown e c => ∃ e', domBuild o bs = .null e' c.pos c.line c.col ∧ (e = e' ∨ (e'.isNameErr = true ∧ e = .nameTooLong))) :=
+  ⟨next_thr o, (tokens_thr o bs).1, (tokens_thr o bs).2, fun reg => runSax_thr reg o bs, domBuildT_spec o bs⟩
+
+/-- non-vacuity: `<abc>` with `maxNameLength = 2`: "invalid start tag name" in the default build, "name too long" when throwing,
+both at offset 4 -/
+example : (match (tokens { maxName := 2 } [0x3C, 0x61, 0x62, 0x63, 0x3E]).2 with
+      | .error .badStartName c _ => c.pos == 4 | _ => false) = true ∧
+    (match (tokens ({ maxName := 2 } : Options).thr [0x3C, 0x61, 0x62, 0x63, 0x3E]).2 with
+      | .error .nameTooLong c _ => c.pos == 4 | _ => false) = true := by decide +kernel
+
 /-- **Qualified names.** `Token::splitQName` splits a name at its FIRST colon: a result `(k, l)` means `name = prefix ++ ":" ++ local`
 with `|prefix| = k`, `|local| = l` and no colon in the prefix; no result means the name has no colon; and every
 `prefix:local` with a colon-free prefix splits back into exactly those two parts. -/
@@ -379,8 +708,10 @@ def inClass (singles : List Nat) (ranges : List (Nat × Nat)) (n : Nat) : Bool :
 
 /-- **Gen conformance.** What the translator regenerates from `xml.hpp` on every run is what the model uses: the `TokenKind`
 enumerators and their values, the `Options` defaults, the two option fields nobody reads, the predefined-entity chain, the
-white-space set, both name-character classes, the UTF-8 range bounds and the surrogate range, every error message, and every
-raw read of the input with the guard that dominates it. -/
+white-space set (all three written-out copies: `skipSpaces`, `skipWhitespaceOutsideText`, the DOCTYPE word boundary), both
+name-character classes, the UTF-8 range bounds and the surrogate range, every error message, every raw read of the input with the guard
+that dominates it, `eof()`, the compile-time throw switch, every test of an `Options` member, the `switch` of `runSax`, and the
+`switch` of `DomBuilder::build` (node type per token kind, decoded-into-a-fresh-string vs. raw values, the guard on Text nodes). -/
 theorem gen_conformance :
     Gen.Xml.tokenKinds = Kind.all.map (fun k => (k.cxxName, k.toNat)) ∧
     (({} : Options).maxDepth, ({} : Options).maxAttrs, ({} : Options).maxName, ({} : Options).maxText, ({} : Options).maxTokens) =
@@ -394,8 +725,23 @@ theorem gen_conformance :
       (inClass Gen.Xml.nameStartSingles Gen.Xml.nameStartRanges n || inClass Gen.Xml.nameCharSingles Gen.Xml.nameCharRanges n)) ∧
     Gen.Xml.utf8Bounds = [0x7F, 0x7FF, 0xFFFF, 0x10FFFF] ∧ Gen.Xml.surrogateLo = 0xD800 ∧ Gen.Xml.surrogateHi = 0xDFFF ∧
     Gen.Xml.errorMessages = ErrKind.all.map ErrKind.message ∧
-    Gen.Xml.readSites = readSites := by
+    Gen.Xml.readSites = readSites ∧
+    -- the two separately written copies of the white-space test, and the DOCTYPE word boundary
+    (∀ n, n < 256 → isSpace (UInt8.ofNat n) = Gen.Xml.whitespaceOutsideText.contains n) ∧
+    (∀ n, n < 256 → (isSpace (UInt8.ofNat n) || UInt8.ofNat n = 0x3E || UInt8.ofNat n = 0x5B) = Gen.Xml.doctypeBoundary.contains n) ∧
+    Gen.Xml.eofBody = "return _cur >= _input.size();" ∧
+    -- the default build does not throw; `Options.throwing` is defined from the regenerated default
+    Gen.Xml.throwOnErrorDefault = 0 ∧ ({} : Options).throwing = false ∧
+    -- `decodeEntities` clears its output first (the model's decoder starts from the empty output), and `DomBuilder::build` decodes
+    -- every value into a fresh string, copies CDATA/comment/PI text raw, and keeps a Text node iff the decoded value is non-empty
+    Gen.Xml.decodeFirstStatement = "out.clear();" ∧
+    Gen.Xml.domCases = domCases ∧
+    Gen.Xml.saxSwitch = saxSwitch ∧
+    Gen.Xml.limitTests = limitTests ∧
+    Gen.Xml.decodeReadSites = decodeReadSites ∧
+    Gen.Xml.nodeDtorBody = nodeDtorBody := by
   refine ⟨by decide, by decide, by decide, by decide, by decide +kernel, by decide +kernel, by decide +kernel, by decide, by decide, by decide,
-    by decide, by decide +kernel⟩
+    by decide, by decide +kernel, by decide +kernel, by decide +kernel, by decide, by decide, by decide, by decide, by decide +kernel,
+    by decide +kernel, by decide +kernel, by decide +kernel⟩
 
 end Iora.C14
